@@ -6,6 +6,8 @@
 // SUM, MIN, MAX, AVG, PERCENTILE, BOOL_AND, BOOL_OR, with GROUP BY / WHERE / HAVING); STDDEV / VARIANCE on values whose
 // sums are exactly representable, compared to 9 decimals; every cut of every sequence of up to 4 lines into two parts for
 // COUNT / SUM / MIN / MAX per group.
+// Also: 11 large INT values (neighbours of 2^53, 10^8, 10^9, the 64-bit ends) in all multisets of 2..3 with MIN / MAX /
+// COUNT(DISTINCT) / STDDEV / VARIANCE / PERCENTILE compared exactly; 12 values whose squares need more than 53 bits in 5 orders.
 include!("verif_grid_common.rs");
 include!("verif_grid_qcommon.rs");
 
@@ -100,6 +102,47 @@ fn verif_grid() {
         if ids.len() <= 3 || mi % 3 == 0 {
             let m = multiset.clone();
             g.case(&format!("perm-m{}-spread", mi), move || check_permutations("SELECT k, STDDEV(v) AS sd, VARIANCE(v) AS var FROM t GROUP BY k", &m, true));
+        }
+    }
+    // large INT values: neighbours of 2^53, of 10^8 / 10^9 and the 64-bit ends (sums that fit) - exact, whatever the order
+    {
+        let big = ["k=a v=9007199254740993", "k=a v=9007199254740992", "k=a v=9007199254740994", "k=b v=-9007199254740993", "k=b v=-9007199254740992", "k=a v=100000001", "k=a v=100000003", "k=a v=999999999", "k=b v=1000000007",
+                   "k=c v=9223372036854775806", "k=c v=-9223372036854775807"];
+        let idx: Vec<String> = (0..big.len()).map(|i| i.to_string()).collect();
+        let idx_refs: Vec<&str> = idx.iter().map(|s| s.as_str()).collect();
+        let mut mi = 0usize;
+        for seq in sequences(&idx_refs, 3) {
+            let ids: Vec<usize> = seq.iter().map(|s| s.parse().unwrap()).collect();
+            if ids.len() < 2 || ids.windows(2).any(|w| w[0] >= w[1]) { continue; }
+            mi += 1;
+            let multiset: Vec<&str> = ids.iter().map(|i| big[*i]).collect();
+            for (si, st) in ["SELECT k, MIN(v) AS lo, MAX(v) AS hi, COUNT(DISTINCT v) AS d FROM t GROUP BY k", "SELECT MIN(v) AS lo, MAX(v) AS hi FROM t",
+                             "SELECT k, STDDEV(v) AS sd, VARIANCE(v) AS var FROM t WHERE v < 2000000000 AND v > 0 GROUP BY k", "SELECT k, PERCENTILE(v, 0.5) AS med FROM t GROUP BY k"].iter().enumerate() {
+                if (mi + si) % 2 != 0 && ids.len() == 3 { continue; }
+                let m = multiset.clone();
+                g.case(&format!("big-m{}-s{}", mi, si), move || check_permutations(st, &m, false));
+            }
+        }
+    }
+    // a dozen values around 10^8..7*10^8 (their squares need more than 53 bits): reversed, rotated, swapped
+    {
+        let sizes = [690000017i64, 120000003, 250000001, 650000007, 150000007, 675000011, 580000021, 410000009, 620000013, 333333337, 101000001, 268435459];
+        let lines: Vec<String> = sizes.iter().enumerate().map(|(i, v)| format!("k={} v={}", if i % 3 == 0 { "a" } else { "b" }, v)).collect();
+        let query = "SELECT k, COUNT(*) AS n, SUM(v) AS total, VARIANCE(v) AS var, STDDEV(v) AS sd, AVG(v) AS mean FROM t GROUP BY k";
+        let mut orders: Vec<Vec<String>> = Vec::new();
+        let mut r = lines.clone(); r.reverse(); orders.push(r);
+        for shift in [1usize, 5, 7] { let mut o = lines.clone(); o.rotate_left(shift); orders.push(o); }
+        let mut o = lines.clone(); o.swap(0, 11); o.swap(3, 4); orders.push(o);
+        for (oi, order) in orders.into_iter().enumerate() {
+            let lines = lines.clone();
+            g.case(&format!("large-values-order-{}", oi), move || {
+                let a: Vec<&str> = lines.iter().map(|s| s.as_str()).collect();
+                let b: Vec<&str> = order.iter().map(|s| s.as_str()).collect();
+                match (q(T, query, &a), q(T, query, &b)) {
+                    (Outcome::Lines(x, _), Outcome::Lines(y, _)) => if x == y { Ok(()) } else { Err(format!("{} over 12 large values prints {:?}; over a permutation of the same lines it prints {:?}", query, x, y)) },
+                    other => Err(format!("{:?}", other)),
+                }
+            });
         }
     }
     for (bi, base) in sequences(&pool[..6], 4).into_iter().enumerate() {
